@@ -29,9 +29,9 @@ class P(Play):
         super().__init__(case, rendered)
         self.case = dict(case, depth=True)
 
-    def after_step(self, i, step, obs):
+    def after_step(self, i, step, obs, ctx=None):
         self._log = list(self.H.log)
-        super().after_step(i, step, obs)
+        super().after_step(i, step, obs, ctx)
 
     def on_step(self, i, step, obs, exp, before):
         it = self.interp
